@@ -2,7 +2,8 @@ SPEC = dict(
     id="C13",
     level_text=(
         "Lean 4 theorems over ALL storage trees with distinct paths (association lists Path -> Bytes), ALL fault subsets "
-        "(read failures, write failures before any byte or after k staged bytes, manifest write/read failure, SQLite / arc.toml "
+        "(persistent and TRANSIENT read failures - the first n attempts fail after delivering d bytes -, persistent and transient "
+        "write failures before any byte or after k staged bytes, manifest write/read failure, SQLite / arc.toml "
         "step failure; any files; backup or restore phase), every restore target, every option set (backup with/without SQLite "
         "metadata and arc.toml; restore with RestoreMetadata/RestoreConfig on or off) and - where the statement allows - ALL "
         "error policies and step programs: C13_roundtrip / C13_roundtrip_full (no faults: backup completes, 0 skipped, restore "
@@ -14,7 +15,9 @@ SPEC = dict(
         "C13_backup_marks/_current/_full_current (clause 3: a completed backup lacking any eligible file has manifest.skipped_files "
         "> 0), C13_backup_status, C13_backup_ratio, C13_restore_counts. Known-bad shapes are theorems: C13_restore_honest_witness "
         "(per-file continue, the finding fixed in 79c3a87), C13_restore_masked_witness (a later step's success overwrites the data "
-        "error). The model (policy + step program = regenerated facts) is diffed against the real backup.Manager over fault-injecting "
+        "error), C13_backup_retry_witness (a read retry into the un-reset temp file stores prefix++content, 0 skipped). The number "
+        "of ReadTo/WriteReader attempts per file and whether a retry resets the temp file are regenerated facts; every clause is "
+        "proved under readExact (<= 1 attempt or resetting retry), re-proved by `decide` for the current source. The model (policy + step program = regenerated facts) is diffed against the real backup.Manager over fault-injecting "
         "wrappers of the real LocalBackend and a real SQLite file: statuses, persisted manifest counts and flags, progress counters, "
         "whether arc.db / arc.toml were restored, and the complete resulting trees (path, length, FNV-64) on an edge grid and random trees."
     ),
